@@ -1762,7 +1762,7 @@ class ListBox(Widget, WidgetContainerMixin):
             if not widget.selectable():
                 continue
 
-            if not rows:
+            if not rows or row_offset + rows <= 0:  # 0-height or scrolled off the top edge
                 continue
 
             # try selecting this widget
@@ -1820,7 +1820,7 @@ class ListBox(Widget, WidgetContainerMixin):
             if pos == focus_pos:
                 continue
 
-            if not rows:  # never focus a 0-height widget
+            if not rows or row_offset + rows <= 0:  # never focus a 0-height or scrolled-off widget
                 continue
 
             # if completely within snap region, adjust row_offset
